@@ -42,6 +42,22 @@ CHECKS = {
    technique="TLA+ history machine (Api.tla) model-checked by TLC: every interleaving of NewRoot/Add/operations up to the bound with invariant HistoryIndependent; every history replayed on the real API sequentially, then the same histories from 16 goroutines at once",
    text="TLC exhausts every history of at most 6 (thorough 7) calls over NewRoot, Add on any live node and any From-Root operation on any live root, with the package-level counter and its reset modelled; the state is the history, so each state is re-executed on the real API and the last result compared with the declarative function of the tree's shape (which includes: repeating an operation repeats its result, other trees built or processed in between do not matter); the histories ending in an operation are then executed free-running from 16 goroutines, each owning its trees. The as-built instantiation (index equality) is kept as MC_C13_asbuilt.cfg: TLC returns the 6-call counter-example that the replay reproduced before the fix.",
    note="Concurrent independent From-Markdown calls are exercised by all other replays (16 goroutines calling the library at once, each compared with the specification)."),
+ 'C06': dict(level=MC, ref='DESIGN.md 7/C06, 3.6',
+   technique="TLA+ spec (Fs.tla: abstract OS with component-wise path resolution, token-level path.Clean/Join, code-shaped mkdir) model-checked by TLC against the declarative Expected(forest, exts) over filesystem histories; every operation state replayed in a real jail directory with full before/after snapshots",
+   text="TLC exhausts forests up to the bound over plain names (incl. a dotted and an over-long name) x 5 extension lists (empty, suffix, whole name, overlapping, directory-looking) x initial targets (present, missing, a regular file) x an environment step pre-creating a root as file or directory x up to two mkdir calls, and checks C06_ExactlyTheTree, C06_ExistsUnchanged, C06_RefusalIsError, C06_Succeeds; each state's last call is performed by the real library (From-Markdown / From-Root / deprecated aliases) in a jail materialised from the model's filesystem and the recursive snapshot (path, kind, content) must equal the model's: exactly the tree with the right kinds, files empty, pre-existing entries byte-identical, ErrExistPath with nothing changed, OS refusal => error.",
+   note="Linux-shaped OS model (ENOTDIR, ENAMETOOLONG, ENOENT resolution order); permissions, symlinks and concurrent external modification are not modelled; forests with equally named roots are outside the statement."),
+ 'C07': dict(level=MC, ref='DESIGN.md 7/C07, 3.6',
+   technique="TLA+ spec (Fs.tla: staged path.Join/Clean on token paths, validatePath) model-checked by TLC with C07_Confined / C07_InvalidRejected over a hostile name alphabet at every node position; every state replayed in a jail three levels below a snapshotted scratch root, simple and massive",
+   text="TLC exhausts forests up to the bound over {a, '.', '..', 'a/b', '/a', '../a'} at every node position x {From-Markdown, From-Root} x {dry-run, real} x extension lists x {target present, missing}; each is replayed on the real library in simple and massive mode: nothing outside the target may appear, change or vanish (whole scratch tree snapshotted), a hostile name must give an error and, without the massive option, an unchanged snapshot.",
+   note="A root named '.' is not counted as hostile (io/fs accepts it as the directory itself). Checks run as root: permissions are never the guard."),
+ 'C08': dict(level=MC, ref='DESIGN.md 7/C08, 3.6',
+   technique="TLA+ spec (Fs.tla code-shaped verifyRoot/handleErr vs declarative MissingOf/ExtraOf) model-checked by TLC over directory states produced by mkdir and environment steps; every verify state replayed in a jail, the error text parsed into the two documented lists and compared as sets",
+   text="TLC exhausts forests up to the bound x directory states (Mkdir of the tree, 0-2 environment steps creating any node path or an extra entry at any depth as file or directory) x strict/non-strict and checks C08_VerdictIff, C08_Lists (first differing root: exactly its missing paths and, strict, exactly its extra entries), C08_ReadOnly, C08_FreshMkdirVerifies; each state is replayed with VerifyFromMarkdown and (single root) VerifyFromRoot / aliases: verdict, both lists and an unchanged snapshot.",
+   note="Only existence is claimed for node paths (kind mismatches are a grey zone); equally named roots are outside the statement."),
+ 'C09': dict(level=MC, ref='DESIGN.md 7/C09, 3.6',
+   technique="TLA+ spec (Fs.tla MkdirOp with dry flag, DryCounts vs the kinds MkdirOp creates on a fresh target) model-checked by TLC; every dry-run state replayed through the three dry-run routes x {simple, massive} with jail snapshots, the report compared with the real plain output per root + the model's counts, the counts with a real mkdir",
+   text="TLC exhausts forests up to the bound (hostile names included) x 5 extension lists x {Mkdir-from-Markdown, Mkdir-from-root} dry-run and checks C09_DryTouchesNothing, C09_DryRejectsIffReal, C09_CountsPredictReal; each state is replayed through Mkdir-from-Markdown+dry-run, Mkdir-from-root+dry-run and Output+dry-run (the CLI route), simple and massive: snapshot unchanged, report = per-root plain tree text + '<dirs> directories, <files> files' (blocks compared as a multiset in massive mode), rejection iff hostile names, and the counts equal what a real Mkdir with the same extensions creates in a fresh jail.",
+   note="Colour is switched off (NO_COLOR) so that report bytes are comparable."),
 }
 
 NOT_YET = "check not built yet (framework under construction; see DESIGN.md section 7)"
